@@ -497,7 +497,7 @@ impl Check for C06 {
         "fault_enumeration"
     }
     fn rule(&self) -> String {
-        "case = configuration + history with large payloads (>= 1 rollover) and a clean shutdown; one sealed segment is chosen and each of its index files (index.eidx, partition.pidx, stream.sidx) is replaced by one of: complete, empty (the state right after create), header-only, a prefix ending inside the MPHF / records / values region, all-but-last-byte; the tape picks the combination and in the thorough tier every single-file state x every file is enumerated per case. Oracle: reopen succeeds and every acknowledged event of the database is found by id, stream scan and partition scan with correct versions/sequences (full audit). Non-trivial: at least one index file truncated to a proper prefix (incl. empty).".into()
+        "case = configuration + history with large payloads (>= 1 rollover) and a clean shutdown; one sealed segment is chosen and each of its index files (index.eidx, partition.pidx, stream.sidx) is replaced by one of: complete, empty (the state right after create), header-only, a prefix ending inside the MPHF / records / values region, all-but-last-byte; every case first tries the control (all three complete), then the tape's combination, and in the thorough tier every single-file state x every file. Oracle: reopen succeeds and every acknowledged event of the database is found by id, stream scan and partition scan with correct versions/sequences (full audit). Non-trivial: at least one index file truncated to a proper prefix (incl. empty).".into()
     }
     fn assumptions(&self) -> Vec<String> {
         vec![
@@ -537,7 +537,9 @@ impl Check for C06 {
         let files = ["index.eidx", "partition.pidx", "stream.sidx"];
         // enumerate states: quick = the tape's combination; thorough = additionally every
         // single-file state for every file
-        let mut combos: Vec<Vec<(usize, usize, u32)>> = vec![(0..3).map(|i| (i, kinds[i], states[i])).collect()];
+        // the control comes first in every case: all three files complete (a crash after the
+        // background index flush finished) must reopen and pass the audit
+        let mut combos: Vec<Vec<(usize, usize, u32)>> = vec![(0..3).map(|i| (i, 0usize, states[i])).collect(), (0..3).map(|i| (i, kinds[i], states[i])).collect()];
         if env.tier == Tier::Thorough {
             for f in 0..3 {
                 for kind in 1..6 {
@@ -553,6 +555,7 @@ impl Check for C06 {
             let rel = seg_dir.strip_prefix(base.dir.path()).unwrap();
             let mut desc = Vec::new();
             let mut damaged = false;
+            let mut cut_early = false; // some file is empty or ends inside its header / MPHF
             for (fi, kind, seed) in &combo {
                 let p = d.path().join(rel).join(files[*fi]);
                 let Ok(orig) = std::fs::read(&p) else { continue };
@@ -569,6 +572,9 @@ impl Check for C06 {
                 if new_len < len {
                     damaged = true;
                     any_prefix = true;
+                    if new_len < (20 + mph_len).min(len) {
+                        cut_early = true;
+                    }
                     let f = std::fs::OpenOptions::new().write(true).open(&p).unwrap();
                     f.set_len(new_len as u64).unwrap();
                 }
@@ -590,7 +596,11 @@ impl Check for C06 {
                             it.out.count("inconclusive_resource_exhaustion", 1);
                             return;
                         }
-                        it.out.fail("C06/open-failed", format!("reopening fails when index files of sealed segment {bucket}:{seg_id} are {}: {e}", serde_json::to_string(&desc).unwrap_or_default()));
+                        // the listed finding covers exactly: an index file that is empty or ends
+                        // inside its header/MPHF. Anything else that blocks reopening is reported
+                        // under its own signature.
+                        let sig = if cut_early { "C06/open-failed" } else if damaged { "C06/open-failed/index-cut-behind-mphf" } else { "C06/open-failed/complete-indexes" };
+                        it.out.fail(sig, format!("reopening fails when index files of sealed segment {bucket}:{seg_id} are {}: {e}", serde_json::to_string(&desc).unwrap_or_default()));
                         return;
                     }
                 }
